@@ -774,6 +774,18 @@ static void sweep_c16(Obj &o, const Case &c, XorShift &x) {
     } else if (is_fc(o.kind) || o.kind == K_RPDAC || (o.kind == K_FMINDEX && c.p.fm_bwt == 0)) {
       ids_null(true, "unsup_locate_substr");
       strs_null(1, "unsup_extract_substr");
+      // PFC / RPFC answer every substring call with NULL whatever the arguments: a pattern longer than every
+      // member must get the null iterator too (seed W8_C16; no draw from x, so older replay files keep their meaning)
+      if ((o.kind == K_PFC || o.kind == K_RPFC) && rep == 0 && !skip("unsup_locate_substr") && !skip("unsup_extract_substr")) {
+        std::string q = S[n - 1] + std::string(c.gi.maxlen + 1 + (n % 7) * 3, (char)('a' + n % 20));
+        IdsR r = op_locate_ids(o, q, true, "unsup_locate_substr");
+        unsupported++;
+        if (!r.ex && !r.nullit) ev("C16", "unsupported-nonnull", "locateSubstr(member + " + std::to_string(q.size() - S[n - 1].size()) + " bytes, longer than every member) on " + std::string(o.kind == K_PFC ? "PFC" : "RPFC") + " returned a non-null iterator (" + std::to_string(r.ids.size()) + " IDs)");
+        StrsR t = op_extract_strs(o, q, 1, "unsup_extract_substr");
+        unsupported++;
+        if (!t.ex && !t.nullit) ev("C16", "unsupported-nonnull", "extractSubstr(member + " + std::to_string(q.size() - S[n - 1].size()) + " bytes, longer than every member) on " + std::string(o.kind == K_PFC ? "PFC" : "RPFC") + " returned a non-null iterator (" + std::to_string(t.strs.size()) + " strings)");
+        cur->labels.insert("unsup_long_pattern");
+      }
     } else if (o.kind == K_XBW) {
       strs_null(2, "unsup_extract_table");
     }
